@@ -902,10 +902,10 @@ func staticFuncOf(v ssa.Value) *ssa.Function {
 		case *ssa.ChangeType:
 			v = x.X
 		case *ssa.MakeClosure:
-			if len(x.Bindings) == 0 {
-				if f, ok := x.Fn.(*ssa.Function); ok {
-					return f
-				}
+			// (a closure with captured variables is still a static function; its contract's frame covers the
+			// captured cells, which are heap objects)
+			if f, ok := x.Fn.(*ssa.Function); ok {
+				return f
 			}
 			return nil
 		default:
